@@ -6,6 +6,10 @@
 //           least squares = normal equations A^T A x = A^T b for all full-rank integer 3x2 / 4x2 (/4x3) systems.
 //   float / double: all integer 3x3 over {-2..2} and 4x4 over {0,1} ({-1,0,1} thorough), structured families up to 12x12:
 //           ||A x - b||_inf <= c * eps * kappa_inf(A) * ||b||_inf with kappa from a long-double Gauss-Jordan inverse.
+// Extension after the coverage review: the caller's A and b are read back after every solve() (handles share storage, solve_() works
+// in place); right-hand sides taken from the matrix itself; exact least squares also through solve_() with the non-square system,
+// through pseudoinverse()*b and with three right-hand sides at once; floating-point least squares on complete integer grids through
+// solve(), solve_(), pseudoinverse() and solveZero() (linear residual: one Gauss-Newton step); systems scaled by 2^+-40 (float 2^+-20).
 #include <asl/Matrix.h>
 #include "c20_common.h"
 using namespace asl;
@@ -17,6 +21,10 @@ int64_t Sym::div = 0; int Sym::ndiv = 0, Sym::unsupported = 0;
 static const uint64_t BIGP = 2305843009213693951ULL;
 
 static int C_EVAL, C_DISTINCT, C_GF_NONSING, C_GF_SING, C_EXCH, C_NOEXCH, C_MULTICOL, C_INVERSE, C_LS_EXACT, C_LS_RANKDEF, C_PLU, C_PLU_BIG, C_FLT, C_FLT_EXCH, C_FLT_LS, C_ILL, C_MODE[3];
+// extension (coverage review): the caller's A and b are read back after every solve(); solve(A, A) and solve(A, A.col(0)); the other entry
+// points of the same elimination (solve_() on a non-square system, pseudoinverse(), solveZero() on a linear residual); several right-hand
+// sides in exact least squares; floating-point systems scaled by 2^+-40 (float 2^+-20) so that an absolute threshold shows
+static int W_PRESERVED, W_ALIAS, W_LS_UNDERSCORE, W_LS_PINV, W_LS_MULTI, C_MULTICOL_F, W_SCALED, W_FLS_GRID, W_FLS_ENTRY[4], W_SOLVEZERO;
 static Reporter rep;
 static MaxTrack mx;
 static const double C_RESID = 8.0;
@@ -59,6 +67,12 @@ static std::string vstr(const VU& a, int rows, int cols, uint64_t p) {
 }
 static Matrix_<Fp> toM(const VU& a, int rows, int cols) { Matrix_<Fp> m(rows, cols); for (int i = 0; i < rows; i++) for (int j = 0; j < cols; j++) m(i, j) = Fp::raw(a[i * cols + j]); return m; }
 
+// the caller's operands after a call: same shape, same elements (solve() takes them by const reference; Matrix_ handles share storage)
+static bool same_as(const Matrix_<Fp>& M, const VU& a, int rows, int cols) {
+	if (M.rows() != rows || M.cols() != cols) return false;
+	for (int i = 0; i < rows; i++) for (int j = 0; j < cols; j++) if (M(i, j).v != a[i * cols + j]) return false;
+	return true;
+}
 static void asan_check(const std::string& what, const std::string& kase) {
 	if (vf::asan_tripped()) { rep.bad("solve_asan", "ASan " + vf::asan_what() + " in " + what, kase); vf::asan_clear(); }
 }
@@ -77,6 +91,9 @@ static void exact_square(const VU& a, int n, const VU& b, int k, uint64_t p, int
 	VU ax = ref_matmul(a, n, n, x, k, p);
 	if (ax != b || Fp::divzero)
 		rep.bad(k > 1 ? "solve_exact_multi" : "solve_exact", fmt("solve(A,b) over GF(%llu), pivot preference #%d: A*x != b%s for A = %s, b = %s, x = %s", (unsigned long long)p, mode, Fp::divzero ? " (divided by zero)" : "", vstr(a, n, n, p).c_str(), vstr(b, n, k, p).c_str(), vstr(x, n, k, p).c_str()), kase);
+	vf::add(W_PRESERVED);
+	if (!same_as(A, a, n, n) || !same_as(B, b, n, k))
+		rep.bad("solve_modifies_input", fmt("solve(A,b) over GF(%llu) with %d right-hand side(s) changed the caller's %s: A = %s, b = %s", (unsigned long long)p, k, same_as(A, a, n, n) ? "b" : "A", vstr(a, n, n, p).c_str(), vstr(b, n, k, p).c_str()), kase);
 	if (also_inverse) {
 		Fp::divzero = 0;
 		Matrix_<Fp> I = A.inverse();
@@ -86,6 +103,31 @@ static void exact_square(const VU& a, int n, const VU& b, int k, uint64_t p, int
 		if (ok) { VU iv(n * n); for (int i = 0; i < n; i++) for (int j = 0; j < n; j++) iv[i * n + j] = I(i, j).v; VU pr = ref_matmul(a, n, n, iv, n, p); for (int i = 0; i < n * n; i++) if (pr[i] != (uint64_t)(i % (n + 1) == 0)) ok = false; }
 		if (!ok) rep.bad("matrix_inverse_exact", fmt("Matrix_::inverse() over GF(%llu), pivot preference #%d: A*inverse(A) != I for A = %s", (unsigned long long)p, mode, vstr(a, n, n, p).c_str()), kase);
 	}
+}
+
+// right-hand sides taken from the matrix itself: solve(A, A) = I (both operands are the same object) and solve(A, A.col(0)) = e_0
+static void exact_alias(const VU& a, int n, uint64_t p, int mode, const std::string& kase, bool with_col) {
+	set_field(p, mode);
+	Fp::divzero = 0;
+	Matrix_<Fp> A = toM(a, n, n);
+	Matrix_<Fp> X = solve(A, A);
+	asan_check("solve(A, A)", kase);
+	vf::add(W_ALIAS);
+	bool ok = X.rows() == n && X.cols() == n && !Fp::divzero;
+	for (int i = 0; i < n && ok; i++) for (int j = 0; j < n; j++) if (X(i, j).v != (uint64_t)(i == j)) ok = false;
+	if (!ok) rep.bad("solve_alias", fmt("solve(A, A) over GF(%llu), pivot preference #%d, is not the identity for A = %s", (unsigned long long)p, mode, vstr(a, n, n, p).c_str()), kase);
+	if (!same_as(A, a, n, n)) rep.bad("solve_modifies_input", fmt("solve(A, A) over GF(%llu) changed A = %s", (unsigned long long)p, vstr(a, n, n, p).c_str()), kase);
+	if (!with_col) return;
+	Fp::divzero = 0;
+	vf::add(W_ALIAS);
+	Matrix_<Fp> c0 = A.col(0);
+	Matrix_<Fp> Y = solve(A, c0);
+	asan_check("solve(A, A.col(0))", kase);
+	ok = Y.rows() == n && Y.cols() == 1 && !Fp::divzero;
+	for (int i = 0; i < n && ok; i++) if (Y(i, 0).v != (uint64_t)(i == 0)) ok = false;
+	if (!ok) rep.bad("solve_alias", fmt("solve(A, A.col(0)) over GF(%llu), pivot preference #%d, is not the first unit vector for A = %s", (unsigned long long)p, mode, vstr(a, n, n, p).c_str()), kase);
+	VU col(n); for (int i = 0; i < n; i++) col[i] = a[i * n];
+	if (!same_as(A, a, n, n) || !same_as(c0, col, n, 1)) rep.bad("solve_modifies_input", fmt("solve(A, A.col(0)) over GF(%llu) changed its operands, A = %s", (unsigned long long)p, vstr(a, n, n, p).c_str()), kase);
 }
 
 static uint64_t ipow(uint64_t b, int e) { uint64_t r = 1; while (e--) r *= b; return r; }
@@ -109,6 +151,7 @@ static void check_gf(uint64_t p, int n, uint64_t ia) {
 		else { VU b(n); for (int i = 0; i < n; i++) b[i] = (uint64_t)(i + 1) % p; b[n - 1] = p - 1; exact_square(a, n, b, 1, p, mode, kase, false); }
 		VU I(n * n, 0); for (int i = 0; i < n; i++) I[i * n + i] = 1;
 		exact_square(a, n, I, n, p, mode, kase, true);
+		exact_alias(a, n, p, mode, kase, n <= 2 || p == 2);
 	}
 }
 
@@ -138,12 +181,13 @@ static void check_plu(int n, int variant, const std::vector<int>& perm) {
 	for (int mode = 0; mode < 3; mode++) {
 		exact_square(a, n, b, 1, p, mode, kase, false);
 		exact_square(a, n, b2, 2, p, mode, kase, mode == 0 && n <= 8);
+		exact_alias(a, n, p, mode, kase, true);
 	}
 }
 
 // least squares, exact: integer data embedded in GF(2^61-1) (so "full rank" and the normal equations mean what they mean
 // over the rationals) — "lsq:<m>:<n>:<r>:<idxA>": all b over {-1,0,1}^m for m <= 3, else b = e_i and two fixed vectors
-static void check_lsq(int m, int n, int rad, uint64_t ia) {
+static void check_lsq(int m, int n, int rad, uint64_t ia, bool all = true) {
 	std::string kase = fmt("lsq:%d:%d:%d:%llu", m, n, rad, (unsigned long long)ia);
 	vf::cur(kase);
 	uint64_t p = BIGP;
@@ -159,18 +203,46 @@ static void check_lsq(int m, int n, int rad, uint64_t ia) {
 		for (int i = 0; i < m; i++) { VU b(m, 0); b[i] = 1; bs.push_back(b); }
 		VU b(m), c(m); for (int i = 0; i < m; i++) { b[i] = (uint64_t)(i + 1); c[i] = (i & 1) ? p - 1 : (uint64_t)(2 + i); } bs.push_back(b); bs.push_back(c);
 	}
-	for (int mode = 0; mode < 3; mode++)
+	// several right-hand sides at once: the first, the last and the middle one of the list as the columns of one matrix
+	int kb = 3; VU Bm(m * kb);
+	{ size_t pick[3] = { 0, bs.size() / 2, bs.size() - 1 }; for (int i = 0; i < m; i++) for (int j = 0; j < kb; j++) Bm[i * kb + j] = bs[pick[j]][i]; }
+	VU atB = ref_matmul(at, n, m, Bm, kb, p);
+	for (int mode = 0; mode < 3; mode++) {
 		for (size_t bi = 0; bi < bs.size(); bi++) {
+			VU atb = ref_matmul(at, n, m, bs[bi], 1, p);
+			// entry points: solve(); solve_() called directly with the non-square system (the way solveZero() reaches it);
+			// pseudoinverse()*b. The two extra ones for the first pivot preference only, unless all is set (thorough tier, replays)
+			for (int ep = 0; ep < ((mode == 0 || all) ? 3 : 1); ep++) {
+				set_field(p, mode);
+				Fp::divzero = 0;
+				Matrix_<Fp> A = toM(a, m, n), B = toM(bs[bi], m, 1), X;
+				if (ep == 0) X = solve(A, B);
+				else if (ep == 1) { Matrix_<Fp> A2 = A.clone(), B2 = B.clone(); X = solve_(A2, B2); vf::add(W_LS_UNDERSCORE); }
+				else { X = A.pseudoinverse() * B; vf::add(W_LS_PINV); }
+				static const char* EPN[3] = { "solve(A,b)", "solve_(A,b)", "A.pseudoinverse()*b" };
+				asan_check(std::string(EPN[ep]) + " (least squares)", kase);
+				vf::add(C_LS_EXACT);
+				if (X.rows() != n || X.cols() != 1) { rep.bad("lsq_shape", fmt("least-squares %s of a %dx%d system returned a %dx%d matrix", EPN[ep], m, n, X.rows(), X.cols()), kase); return; }
+				VU x(n); for (int i = 0; i < n; i++) x[i] = X(i, 0).v;
+				if (ref_matmul(N, n, n, x, 1, p) != atb || Fp::divzero)
+					rep.bad(ep == 0 ? "lsq_exact" : ep == 1 ? "lsq_exact_solve_" : "lsq_exact_pseudoinverse", fmt("%s for the full-rank %dx%d system A = %s, b = %s does not satisfy the normal equations A^T A x = A^T b (exact arithmetic, pivot preference #%d)", EPN[ep], m, n, vstr(a, m, n, p).c_str(), vstr(bs[bi], m, 1, p).c_str(), mode), kase);
+				if (ep != 1) { vf::add(W_PRESERVED); if (!same_as(A, a, m, n) || !same_as(B, bs[bi], m, 1)) rep.bad("solve_modifies_input", fmt("%s changed the caller's operands of the %dx%d system A = %s, b = %s", EPN[ep], m, n, vstr(a, m, n, p).c_str(), vstr(bs[bi], m, 1, p).c_str()), kase); }
+			}
+		}
+		{
 			set_field(p, mode);
 			Fp::divzero = 0;
-			Matrix_<Fp> X = solve(toM(a, m, n), toM(bs[bi], m, 1));
-			asan_check("solve (least squares)", kase);
-			vf::add(C_LS_EXACT);
-			if (X.rows() != n || X.cols() != 1) { rep.bad("lsq_shape", fmt("least-squares solve of a %dx%d system returned a %dx%d matrix", m, n, X.rows(), X.cols()), kase); return; }
-			VU x(n); for (int i = 0; i < n; i++) x[i] = X(i, 0).v;
-			if (ref_matmul(N, n, n, x, 1, p) != ref_matmul(at, n, m, bs[bi], 1, p) || Fp::divzero)
-				rep.bad("lsq_exact", fmt("solve(A,b) for the full-rank %dx%d system A = %s, b = %s does not satisfy the normal equations A^T A x = A^T b (exact arithmetic, pivot preference #%d)", m, n, vstr(a, m, n, p).c_str(), vstr(bs[bi], m, 1, p).c_str(), mode), kase);
+			Matrix_<Fp> A = toM(a, m, n), B = toM(Bm, m, kb);
+			Matrix_<Fp> X = solve(A, B);
+			asan_check("solve (least squares, 3 right-hand sides)", kase);
+			vf::add(C_LS_EXACT); vf::add(W_LS_MULTI); vf::add(C_MULTICOL);
+			if (X.rows() != n || X.cols() != kb) { rep.bad("lsq_shape", fmt("least-squares solve of a %dx%d system with %d right-hand sides returned a %dx%d matrix", m, n, kb, X.rows(), X.cols()), kase); return; }
+			VU x(n * kb); for (int i = 0; i < n; i++) for (int j = 0; j < kb; j++) x[i * kb + j] = X(i, j).v;
+			if (ref_matmul(N, n, n, x, kb, p) != atB || Fp::divzero)
+				rep.bad("lsq_exact_multi", fmt("solve(A,B) for the full-rank %dx%d system A = %s with the %d right-hand sides B = %s does not satisfy the normal equations A^T A X = A^T B (exact arithmetic, pivot preference #%d)", m, n, vstr(a, m, n, p).c_str(), kb, vstr(Bm, m, kb, p).c_str(), mode), kase);
+			vf::add(W_PRESERVED); if (!same_as(A, a, m, n) || !same_as(B, Bm, m, kb)) rep.bad("solve_modifies_input", fmt("solve(A,B) changed the caller's operands of the %dx%d system A = %s", m, n, vstr(a, m, n, p).c_str()), kase);
 		}
+	}
 }
 
 // ---------------------------------------------------------------- floating point
@@ -202,11 +274,26 @@ static std::string lstr(const VL& a, int rows, int cols) {
 }
 template <class T> static const char* tname() { return sizeof(T) == 4 ? "float" : "double"; }
 
-// A (m x n, values are rounded to T first so that asl and the reference see the same numbers), b (m x k)
+// linear residual f(x) = A x - b as a functor for solveZero(): with step 1 and start 0 the difference quotients are A exactly
+// (integer data), and the first Gauss-Newton step is the least-squares solution
+template <class T> struct LinearResidual {
+	const Matrix_<T>* A; const Matrix_<T>* b;
+	Matrix_<T> operator()(const Matrix_<T>& x) const {
+		Matrix_<T> f(A->rows(), 1);
+		for (int i = 0; i < A->rows(); i++) { T s = -(*b)(i, 0); for (int j = 0; j < A->cols(); j++) s += (*A)(i, j) * x[j]; f(i, 0) = s; }
+		return f;
+	}
+};
+
+// A (m x n, values are rounded to T first so that asl and the reference see the same numbers), b (m x k).
+// ep: entry point — 0 solve(A,b); 1 solve_(A,b) on copies; 2 A.pseudoinverse()*b; 3 solveZero(A x - b, 0) (k = 1, integer data).
+// sc: A is multiplied by 2^sc (exact), so x by 2^-sc: conditioning and the reference are the same, absolute thresholds are not.
+// Returns false when the system was not run (singular or ill-conditioned).
 template <class T>
-static void float_system(VL a, int m, int n, VL b, int k, const std::string& kase, const char* fam) {
+static bool float_system(VL a, int m, int n, VL b, int k, const std::string& kase, const char* fam, int ep = 0, int sc = 0) {
 	const long double eps = std::numeric_limits<T>::epsilon();
-	for (size_t i = 0; i < a.size(); i++) a[i] = (long double)(T)a[i];
+	const long double sf = sc ? ldexpl(1.0L, sc) : 1.0L; // multiplication by a power of two is exact
+	for (size_t i = 0; i < a.size(); i++) a[i] = (long double)(T)a[i] * sf;
 	for (size_t i = 0; i < b.size(); i++) b[i] = (long double)(T)b[i];
 	// the square system actually solved: A itself, or the normal equations
 	VL N, rhs, scale;
@@ -217,17 +304,23 @@ static void float_system(VL a, int m, int n, VL b, int k, const std::string& kas
 		for (int j = 0; j < k; j++) for (int i = 0; i < n; i++) { long double s = 0, sa = 0; for (int t = 0; t < m; t++) { s += a[t * n + i] * b[t * k + j]; sa += fabsl(a[t * n + i] * b[t * k + j]); } rhs[i * k + j] = s; scale[j] = std::max(scale[j], sa); }
 	}
 	VL inv;
-	if (!ld_inverse(N, n, inv)) return;
+	if (!ld_inverse(N, n, inv)) return false;
 	long double kappa = norm_inf(N, n, n) * norm_inf(inv, n, n);
 	vf::add(C_EVAL);
-	if (!(kappa * eps < 1.0L / 64)) { vf::add(C_ILL); return; } // not "well-conditioned" for this type
+	if (!(kappa * eps < 1.0L / 64)) { vf::add(C_ILL); return false; } // not "well-conditioned" for this type
 	Matrix_<T> A(m, n), B(m, k);
 	for (int i = 0; i < m; i++) { for (int j = 0; j < n; j++) A(i, j) = (T)a[i * n + j]; for (int j = 0; j < k; j++) B(i, j) = (T)b[i * k + j]; }
-	Matrix_<T> X = solve(A, B);
-	asan_check("solve (floating point)", kase);
+	static const char* EPN[4] = { "solve", "solve_", "pseudoinverse()*b", "solveZero (linear residual, step 1, start 0)" };
+	Matrix_<T> X;
+	if (ep == 0) X = solve(A, B);
+	else if (ep == 1) { Matrix_<T> A2 = A.clone(), B2 = B.clone(); X = solve_(A2, B2); }
+	else if (ep == 2) X = A.pseudoinverse() * B;
+	else { LinearResidual<T> f = { &A, &B }; X = solveZero(f, Matrix_<T>(n, 1, T(0)), SolveParams(15, 1e-6, 1.0)); vf::add(W_SOLVEZERO); }
+	asan_check(std::string(EPN[ep]) + " (floating point)", kase);
 	vf::add(C_FLT); if (m != n) vf::add(C_FLT_LS);
-	if (k > 1) vf::add(C_MULTICOL);
-	if (X.rows() != n || X.cols() != k) { rep.bad("solve_shape", fmt("%s solve of a %dx%d system returned a %dx%d matrix", tname<T>(), m, n, X.rows(), X.cols()), kase); return; }
+	if (k > 1) vf::add(C_MULTICOL_F);
+	if (sc) vf::add(W_SCALED);
+	if (X.rows() != n || X.cols() != k) { rep.bad("solve_shape", fmt("%s %s of a %dx%d system returned a %dx%d matrix", tname<T>(), EPN[ep], m, n, X.rows(), X.cols()), kase); return true; }
 	long double worst = 0;
 	for (int j = 0; j < k; j++) {
 		long double r = 0;
@@ -236,9 +329,16 @@ static void float_system(VL a, int m, int n, VL b, int k, const std::string& kas
 		if (ratio > worst) worst = ratio;
 	}
 	if (!(worst <= C_RESID))
-		rep.bad(std::string(m == n ? "solve_residual_" : "lsq_residual_") + tname<T>(), fmt("%s %s of the %dx%d system (%s): residual = %.2Lf * eps * kappa * |b| (kappa_inf = %.4Lg); A = %s, b = %s", tname<T>(), m == n ? "solve" : "least-squares solve (normal equations)", m, n, fam, worst, kappa, lstr(a, m, n).c_str(), lstr(b, m, k).c_str()), kase);
-	std::string nm = fmt("resid_over_eps_kappa.%s.%s", fam, tname<T>());
+		rep.bad(std::string(m == n ? "solve_residual_" : "lsq_residual_") + tname<T>() + (ep == 0 ? "" : ep == 1 ? "_solve_" : ep == 2 ? "_pseudoinverse" : "_solvezero"), fmt("%s %s of the %dx%d system (%s%s): residual = %.2Lf * eps * kappa * |b| (kappa_inf = %.4Lg); A = %s, b = %s", tname<T>(), m == n ? EPN[ep] : (std::string("least-squares ") + EPN[ep] + " (normal equations)").c_str(), m, n, fam, sc ? fmt(", A scaled by 2^%d", sc).c_str() : "", worst, kappa, lstr(a, m, n).c_str(), lstr(b, m, k).c_str()), kase);
+	if (ep == 0 || ep == 2) { // the caller's operands are read back
+		bool same = A.rows() == m && A.cols() == n && B.rows() == m && B.cols() == k;
+		for (int i = 0; i < m && same; i++) { for (int j = 0; j < n; j++) if (!(A(i, j) == (T)a[i * n + j])) same = false; for (int j = 0; j < k; j++) if (!(B(i, j) == (T)b[i * k + j])) same = false; }
+		vf::add(W_PRESERVED);
+		if (!same) rep.bad("solve_modifies_input", fmt("%s %s of the %dx%d system with %d right-hand side(s) changed the caller's A or b; A = %s, b = %s", tname<T>(), EPN[ep], m, n, k, lstr(a, m, n).c_str(), lstr(b, m, k).c_str()), kase);
+	}
+	std::string nm = fmt("resid_over_eps_kappa.%s%s.%s", fam, ep == 0 ? "" : ep == 1 ? ".solve_" : ep == 2 ? ".pinv" : ".solvezero", tname<T>());
 	mx.see_lazy(nm.c_str(), worst, [&] { return kase; });
+	return true;
 }
 
 // does plain elimination in natural order meet a pivot that is not the largest of its column? (row exchange by partial pivoting)
@@ -251,9 +351,10 @@ static bool ld_needs_exchange(VL a, int n) {
 	return false;
 }
 
-// "fgrid:<n>:<base>:<off>:<idx>" all integer matrices of a grid; b = (1,2,..)^T and b = I
-static void check_fgrid(int n, int base, int off, uint64_t idx, int what = 15) {
-	std::string kase = fmt("fgrid:%d:%d:%d:%llu", n, base, off, (unsigned long long)idx);
+// "fgrid:<n>:<base>:<off>:<idx>[:<s>]" all integer matrices of a grid; b = (1,2,..)^T and b = I; s = 1: A scaled by 2^+-40 (float 2^+-20)
+// instead of unscaled
+static void check_fgrid(int n, int base, int off, uint64_t idx, int what = 15, int scaled = 0) {
+	std::string kase = fmt(scaled ? "fgrid:%d:%d:%d:%llu:1" : "fgrid:%d:%d:%d:%llu", n, base, off, (unsigned long long)idx);
 	vf::cur(kase);
 	VU d = digits(idx, base, n * n);
 	VL a(n * n); for (int i = 0; i < n * n; i++) a[i] = (long double)((int)d[i] - off);
@@ -261,20 +362,46 @@ static void check_fgrid(int n, int base, int off, uint64_t idx, int what = 15) {
 	int64_t mi[16], adj[16]; for (int i = 0; i < n * n; i++) mi[i] = (int)d[i] - off;
 	int64_t det = n == 3 ? ref_adj3<int64_t>(mi, adj) : ref_adj4<int64_t>(mi, adj);
 	if (det == 0) { vf::add(C_EVAL); return; }
-	vf::add(C_DISTINCT);
+	if (!scaled) vf::add(C_DISTINCT);
 	if (ld_needs_exchange(a, n)) vf::add(C_FLT_EXCH);
 	VL b(n), I(n * n, 0); for (int i = 0; i < n; i++) { b[i] = i + 1; I[i * n + i] = 1; }
 	const char* fam = n == 3 ? "grid3" : "grid4";
-	if (what & 1) float_system<float>(a, n, n, b, 1, kase, fam);
-	if (what & 2) float_system<double>(a, n, n, b, 1, kase, fam);
-	if (what & 4) float_system<float>(a, n, n, I, n, kase, fam);
-	if (what & 8) float_system<double>(a, n, n, I, n, kase, fam);
+	const int sgs[2] = { scaled ? -1 : 0, 1 };
+	for (int q = 0; q < (scaled ? 2 : 1); q++) {
+		int sg = sgs[q];
+		if (what & 1) float_system<float>(a, n, n, b, 1, kase, fam, 0, 20 * sg);
+		if (what & 2) float_system<double>(a, n, n, b, 1, kase, fam, 0, 40 * sg);
+		if (what & 4) float_system<float>(a, n, n, I, n, kase, fam, 0, 20 * sg);
+		if (what & 8) float_system<double>(a, n, n, I, n, kase, fam, 0, 40 * sg);
+	}
+}
+
+// "flsq:<m>:<n>:<r>:<idx>" — floating-point least squares on ALL integer m x n matrices over {-r..r} of full rank, two right-hand sides at once,
+// through every entry point: solve(), solve_(), pseudoinverse()*b, and solveZero() on the linear residual (first column only)
+static void check_flsq(int m, int n, int rad, uint64_t idx) {
+	std::string kase = fmt("flsq:%d:%d:%d:%llu", m, n, rad, (unsigned long long)idx);
+	vf::cur(kase);
+	VU d = digits(idx, 2 * rad + 1, m * n);
+	VL a(m * n); for (int i = 0; i < m * n; i++) a[i] = (long double)((int)d[i] - rad);
+	VL B(m * 2), b(m);
+	for (int i = 0; i < m; i++) { B[i * 2] = b[i] = i + 1; B[i * 2 + 1] = (i & 1) ? -1 : 2 + i; }
+	bool ran = false;
+	for (int ep = 0; ep < (m == n ? 2 : 3); ep++) { // pseudoinverse() squares the condition number: over-determined systems only
+		bool r1 = float_system<float>(a, m, n, B, 2, kase, "lsqgrid", ep), r2 = float_system<double>(a, m, n, B, 2, kase, "lsqgrid", ep);
+		if (r1) vf::add(W_FLS_ENTRY[ep]); if (r2) vf::add(W_FLS_ENTRY[ep]);
+		ran = ran || r1 || r2;
+		if (!r1 && !r2) break; // rank deficient
+	}
+	if (!ran) return;
+	vf::add(C_DISTINCT); vf::add(W_FLS_GRID);
+	if (float_system<float>(a, m, n, b, 1, kase, "lsqgrid", 3)) vf::add(W_FLS_ENTRY[3]);
+	if (float_system<double>(a, m, n, b, 1, kase, "lsqgrid", 3)) vf::add(W_FLS_ENTRY[3]);
 }
 
 // structured families up to 12x12
 static const char* FAMS[] = { "tridiag", "toeplitz", "permdom", "lu", "vandermonde", "lsq" };
-static void check_family(int fam, int n, int var) {
-	std::string kase = fmt("fam:%d:%d:%d", fam, n, var);
+static void check_family(int fam, int n, int var, int scaled = 0) {
+	std::string kase = fmt(scaled ? "fam:%d:%d:%d:1" : "fam:%d:%d:%d", fam, n, var);
 	vf::cur(kase);
 	int m = n;
 	VL a;
@@ -298,21 +425,29 @@ static void check_family(int fam, int n, int var) {
 		m = n + 1 + var; a.assign(m * n, 0);
 		for (int i = 0; i < m; i++) for (int j = 0; j < n; j++) a[i * n + j] = ((5 * i + 3 * j) % 7 - 3) / (var == 2 ? 3.0L : 1.0L) + (i % n == j ? 4 : 0);
 	}
-	vf::add(C_DISTINCT);
+	if (!scaled) vf::add(C_DISTINCT);
 	if (m == n && ld_needs_exchange(a, n)) vf::add(C_FLT_EXCH);
 	VL b(m), B(m * 3, 0);
 	for (int i = 0; i < m; i++) { b[i] = 1 + (i % 3) * 0.5L; B[i * 3] = i == 0; B[i * 3 + 1] = (i & 1) ? -1.25L : 0.7L; B[i * 3 + 2] = i == m - 1; }
-	float_system<float>(a, m, n, b, 1, kase, FAMS[fam]); float_system<double>(a, m, n, b, 1, kase, FAMS[fam]);
-	float_system<float>(a, m, n, B, 3, kase, FAMS[fam]); float_system<double>(a, m, n, B, 3, kase, FAMS[fam]);
+	const int sgs[2] = { scaled ? -1 : 0, 1 };
+	for (int q = 0; q < (scaled ? 2 : 1); q++) {
+		int sf = 20 * sgs[q], sd = 40 * sgs[q];
+		if (m != n) { sf /= 2; sd /= 2; } // the normal equations square the scale
+		float_system<float>(a, m, n, b, 1, kase, FAMS[fam], 0, sf); float_system<double>(a, m, n, b, 1, kase, FAMS[fam], 0, sd);
+		float_system<float>(a, m, n, B, 3, kase, FAMS[fam], 0, sf); float_system<double>(a, m, n, B, 3, kase, FAMS[fam], 0, sd);
+		if (m != n) // the other entry points of the non-square path
+			for (int ep = 1; ep < 3; ep++) { float_system<float>(a, m, n, B, 3, kase, FAMS[fam], ep, sf); float_system<double>(a, m, n, B, 3, kase, FAMS[fam], ep, sd); }
+	}
 }
 
 static void run_case(const std::string& k) {
-	unsigned long long p = 0, ia = 0; int n = 0, m = 0, v = 0, r = 0, base = 0, off = 0; char buf[400];
+	unsigned long long p = 0, ia = 0; int n = 0, m = 0, v = 0, r = 0, base = 0, off = 0, sc = 0; char buf[400];
 	if (sscanf(k.c_str(), "gf:%llu:%d:%llu", &p, &n, &ia) == 3) check_gf(p, n, ia);
 	else if (sscanf(k.c_str(), "plu:%d:%d:%399s", &n, &v, buf) == 3) { std::vector<int> perm; for (char* q = strtok(buf, "."); q; q = strtok(0, ".")) perm.push_back(atoi(q)); if ((int)perm.size() == n) check_plu(n, v, perm); }
-	else if (sscanf(k.c_str(), "lsq:%d:%d:%d:%llu", &m, &n, &r, &ia) == 4) check_lsq(m, n, r, ia);
-	else if (sscanf(k.c_str(), "fgrid:%d:%d:%d:%llu", &n, &base, &off, &ia) == 4) check_fgrid(n, base, off, ia);
-	else if (sscanf(k.c_str(), "fam:%d:%d:%d", &m, &n, &v) == 3) check_family(m, n, v);
+	else if (sscanf(k.c_str(), "lsq:%d:%d:%d:%llu", &m, &n, &r, &ia) == 4) check_lsq(m, n, r, ia, true);
+	else if (sscanf(k.c_str(), "flsq:%d:%d:%d:%llu", &m, &n, &r, &ia) == 4) check_flsq(m, n, r, ia);
+	else if (sscanf(k.c_str(), "fgrid:%d:%d:%d:%llu:%d", &n, &base, &off, &ia, &sc) >= 4) check_fgrid(n, base, off, ia, 15, sc);
+	else if (sscanf(k.c_str(), "fam:%d:%d:%d:%d", &m, &n, &v, &sc) >= 3) check_family(m, n, v, sc);
 	mx.flush();
 }
 
@@ -321,16 +456,20 @@ int main(int argc, char** argv) {
 	C_EVAL = vf::counter("evaluations"); C_DISTINCT = vf::counter("distinct_nontrivial");
 	C_GF_NONSING = vf::counter("w.gf_nonsingular_systems"); C_GF_SING = vf::counter("gf_singular_skipped");
 	C_EXCH = vf::counter("w.exact_row_exchange_needed"); C_NOEXCH = vf::counter("w.exact_no_exchange_needed");
-	C_MULTICOL = vf::counter("w.multi_column_rhs"); C_INVERSE = vf::counter("w.matrix_inverse_calls");
+	C_MULTICOL = vf::counter("w.multi_column_rhs_exact"); C_MULTICOL_F = vf::counter("w.multi_column_rhs_float"); C_INVERSE = vf::counter("w.matrix_inverse_calls");
 	C_LS_EXACT = vf::counter("w.lsq_exact_solves"); C_LS_RANKDEF = vf::counter("lsq_rank_deficient_skipped");
 	C_PLU = vf::counter("w.plu_systems"); C_PLU_BIG = vf::counter("w.plu_systems_9_to_12");
 	C_FLT = vf::counter("w.float_double_solves"); C_FLT_EXCH = vf::counter("w.float_partial_pivoting_exchanges"); C_FLT_LS = vf::counter("w.float_double_lsq_solves"); C_ILL = vf::counter("float_ill_conditioned_skipped");
 	C_MODE[0] = vf::counter("w.pivot_preference_largest"); C_MODE[1] = vf::counter("w.pivot_preference_smallest"); C_MODE[2] = vf::counter("w.pivot_preference_scrambled");
+	W_PRESERVED = vf::counter("w.operands_read_back_after_solve"); W_ALIAS = vf::counter("w.solve_rhs_taken_from_matrix");
+	W_LS_UNDERSCORE = vf::counter("w.lsq_exact_solve_underscore_nonsquare"); W_LS_PINV = vf::counter("w.lsq_exact_pseudoinverse"); W_LS_MULTI = vf::counter("w.lsq_exact_multi_column");
+	W_SCALED = vf::counter("w.float_scaled_systems"); W_FLS_GRID = vf::counter("w.float_lsq_grid_matrices"); W_SOLVEZERO = vf::counter("w.solvezero_linear_calls");
+	W_FLS_ENTRY[0] = vf::counter("w.float_grid_entry_solve"); W_FLS_ENTRY[1] = vf::counter("w.float_grid_entry_solve_underscore"); W_FLS_ENTRY[2] = vf::counter("w.float_grid_entry_pseudoinverse"); W_FLS_ENTRY[3] = vf::counter("w.float_grid_entry_solvezero");
 	rep.c_supp = vf::counter("violations_not_listed_repeats");
 	if (vf::opt.replay) { vf::parallel(1, [&](uint64_t) { run_case(vf::opt.kase); }); return vf::finish(); }
 	bool T = vf::opt.thorough();
-	double t_sec = vf::now_s();
-#define SECTION_DONE(name) do { vf::setinfo(std::string("seconds.") + name, fmt("%.1f", vf::now_s() - t_sec)); t_sec = vf::now_s(); } while (0)
+	Sections sec;
+#define SECTION_DONE(name) sec.done(name)
 
 	// ---- exact: all systems over small fields
 	struct G { uint64_t p; int n; bool thorough_only; } gs[] = { { 2, 1, false }, { 2, 2, false }, { 3, 2, false }, { 5, 2, false }, { 7, 2, false }, { 2, 3, false }, { 3, 3, false }, { 5, 3, false }, { 2, 4, false }, { 2, 5, true } };
@@ -370,12 +509,27 @@ int main(int argc, char** argv) {
 		if (ls[g].thorough_only && !T) continue;
 		int m = ls[g].m, n = ls[g].n, rad = ls[g].rad;
 		uint64_t total = ipow(2 * rad + 1, m * n), blk = total > 4096 ? 256 : 1, nblk = (total + blk - 1) / blk;
-		vf::parallel(nblk, [&](uint64_t b) { if (vf::deadline_passed()) { vf::cap_hit("deadline inside exact least squares"); return; } for (uint64_t i = b * blk; i < (b + 1) * blk && i < total; i++) check_lsq(m, n, rad, i); }, 4);
+		vf::parallel(nblk, [&](uint64_t b) { if (vf::deadline_passed()) { vf::cap_hit("deadline inside exact least squares"); return; } for (uint64_t i = b * blk; i < (b + 1) * blk && i < total; i++) check_lsq(m, n, rad, i, T); }, 4);
 	}
 	SECTION_DONE("lsq_exact");
 	// ---- floating point: integer grids
 	vf::parallel(3125, [&](uint64_t b) { for (uint64_t i = b * 625; i < (b + 1) * 625; i++) check_fgrid(3, 5, 2, i); mx.flush(); mx.m.clear(); }, 4);
 	vf::parallel(256, [&](uint64_t b) { for (uint64_t i = b * 256; i < (b + 1) * 256; i++) check_fgrid(4, 2, 0, i); mx.flush(); mx.m.clear(); }, 2);
+	SECTION_DONE("float_grids");
+	// the same systems with A scaled by 2^-40 and 2^+40 (float 2^-20, 2^+20): 3x3 over {-1,0,1} and 4x4 over {0,1}; thorough: 3x3 over {-2..2}
+	vf::parallel(243, [&](uint64_t b) { for (uint64_t i = b * 81; i < (b + 1) * 81; i++) check_fgrid(3, 3, 1, i, 15, 1); mx.flush(); mx.m.clear(); }, 2);
+	vf::parallel(256, [&](uint64_t b) { for (uint64_t i = b * 256; i < (b + 1) * 256; i++) check_fgrid(4, 2, 0, i, 15, 1); mx.flush(); mx.m.clear(); }, 2);
+	if (T) vf::parallel(3125, [&](uint64_t b) { for (uint64_t i = b * 625; i < (b + 1) * 625; i++) check_fgrid(3, 5, 2, i, 15, 1); mx.flush(); mx.m.clear(); }, 4);
+	SECTION_DONE("float_grids_scaled");
+	// floating-point least squares / square systems through all entry points on complete integer grids
+	struct FL { int m, n, rad; bool thorough_only; } fl[] = { { 2, 1, 2, false }, { 3, 1, 2, false }, { 3, 2, 1, false }, { 3, 2, 2, false }, { 4, 2, 1, false }, { 2, 2, 2, false }, { 3, 3, 1, false }, { 5, 2, 1, true }, { 4, 3, 1, true }, { 4, 2, 2, true } };
+	for (size_t g = 0; g < sizeof fl / sizeof *fl; g++) {
+		if (fl[g].thorough_only && !T) continue;
+		int m = fl[g].m, n = fl[g].n, rad = fl[g].rad;
+		uint64_t total = ipow(2 * rad + 1, m * n), blk = total > 4096 ? 256 : 1, nblk = (total + blk - 1) / blk;
+		vf::parallel(nblk, [&](uint64_t b) { if (vf::deadline_passed()) { vf::cap_hit("deadline inside the floating-point least-squares grids"); return; } for (uint64_t i = b * blk; i < (b + 1) * blk && i < total; i++) check_flsq(m, n, rad, i); mx.flush(); mx.m.clear(); }, 4);
+	}
+	SECTION_DONE("float_lsq_grids");
 	if (T) { // all 4x4 over {-1,0,1}: double, right-hand side I (4 columns)
 		bool capped = false;
 		vf::parallel(6561, [&](uint64_t b) {
@@ -384,7 +538,7 @@ int main(int argc, char** argv) {
 			mx.flush(); mx.m.clear();
 		}, 8);
 	}
-	SECTION_DONE("float_grids");
+	SECTION_DONE("float_grid_4x4_all");
 	// ---- floating point: families up to 12x12
 	struct FJ { int fam, n, var; };
 	std::vector<FJ> fj;
@@ -395,7 +549,9 @@ int main(int argc, char** argv) {
 		if (n <= 7) for (int v = 0; v < 2; v++) { FJ j = { 4, n, v }; fj.push_back(j); }
 		for (int v = 0; v < 3; v++) { FJ j = { 5, n, v }; fj.push_back(j); }
 	}
-	vf::parallel(fj.size(), [&](uint64_t i) { check_family(fj[i].fam, fj[i].n, fj[i].var); mx.flush(); mx.m.clear(); }, 8);
+	vf::parallel(fj.size(), [&](uint64_t i) { check_family(fj[i].fam, fj[i].n, fj[i].var); check_family(fj[i].fam, fj[i].n, fj[i].var, 1); mx.flush(); mx.m.clear(); }, 8);
+	// too many systems dropped as ill-conditioned would hollow out the floating-point clause without any other sign
+	if (vf::get(C_ILL) * 20 > vf::get(C_FLT)) vf::cap_hit(fmt("%llu floating-point systems skipped as ill-conditioned (more than 5%% of those solved)", (unsigned long long)vf::get(C_ILL)));
 
 	SECTION_DONE("float_families");
 	mx.collect(); mx.publish();
@@ -403,6 +559,7 @@ int main(int argc, char** argv) {
 	vf::sample("gf:5:3:<idx> = every 3x3 system over GF(5) (b = I and one column, two pivot preferences); gf:2:4:<idx> x all 16 right-hand sides");
 	vf::sample("plu:12:1:11.10.9.8.7.6.5.4.3.2.1.0 = 12x12 P*L*U over GF(2^61-1) whose pivot rows are forced in reverse order, three pivot preferences, 1 and 2 right-hand sides");
 	vf::sample("lsq:4:2:1:<idx> = all 4x2 integer matrices over {-1,0,1} of full rank: solve() must satisfy A^T A x = A^T b exactly");
+	vf::sample("flsq:4:2:1:<idx> = the same 4x2 integer matrices in float and double: solve(), solve_(), pseudoinverse()*b with two right-hand sides, solveZero() on A x - b; fgrid:3:3:1:<idx>:1 = 3x3 systems scaled by 2^-40 and 2^+40");
 	vf::sample("fam:2:12:5 = 12x12 diagonally dominant matrix with rows rotated by 5 (float and double), residual <= 8 eps kappa |b|");
 	return vf::finish();
 }
